@@ -139,6 +139,11 @@ def _encode_gate(
     gate_type_id = _gate_type_to_int.get(gate_.gate_type)
     if gate_type_id is None:
         raise CircuitEncodingError("Tried to encode unsupported gate type")
+    if len(gate_.operands) != _get_arity(gate_.gate_type):
+        # The decoder derives the number of operands from the gate type.
+        raise CircuitEncodingError(
+            "Tried to encode gate with unsupported number of operands"
+        )
     bit_writer.write_number(gate_type_id, GATE_TYPE_BIT_SIZE)
     for operand_label in gate_.operands:
         bit_writer.write_number(gate_identifiers[operand_label], word_size)
